@@ -106,7 +106,15 @@ def _impl_renders(case):
         kinds = KINDS if case.get("allreads") else [case["kind"]]
         reads = None if "err" in p else {k: _try(lambda k=k: _canon_maze(_cls(k).from_pixels(raw["px"].copy()))) for k in kinds}
         reads_a = None if "err" in a else {k: _try(lambda k=k: _canon_maze(_cls(k).from_ascii(raw["asc"]))) for k in kinds}
-        outs.append(dict(se=se, ss=ss, pixels=p, ascii=a, reads=reads, reads_ascii=reads_a))
+        kept = None
+        if "err" not in p:
+            # reading must not consume the picture: ONE array read twice, and compared with the picture afterwards
+            img = raw["px"].copy()
+            r1 = _try(lambda: _canon_maze(_cls(case["kind"]).from_pixels(img)))
+            same = bool(np.array_equal(img, raw["px"]))
+            r2 = _try(lambda: _canon_maze(_cls(case["kind"]).from_pixels(img)))
+            kept = dict(image_unchanged=same, second_read_same=(r1 == r2))
+        outs.append(dict(se=se, ss=ss, pixels=p, ascii=a, reads=reads, reads_ascii=reads_a, kept=kept))
     return outs
 
 
@@ -228,6 +236,9 @@ def _oracle(case, renders):
             d = _bfs_dist(case, case["solution"][0], case["solution"][-1])
             if d is not None and d == len(case["solution"]) - 1:
                 want = dict(kind="solved", rows=case["rows"], cols=case["cols"], edges=sorted(case["edges"]), solution=case["solution"])
+        if rd.get("kept") and not (rd["kept"]["image_unchanged"] and rd["kept"]["second_read_same"]):
+            bad.append(f"from_pixels on the picture as_pixels({tag}) returned {'changed the caller\'s image in place' if not rd['kept']['image_unchanged'] else 'left the image alone'}"
+                       f"{'' if rd['kept']['second_read_same'] else '; a second read of the same array gives another answer'}: the image no longer is the maze's picture")
         if want is not None:
             for src in ("reads", "reads_ascii"):
                 got_r = rd[src][kind]
@@ -467,7 +478,7 @@ def eval_chunk(cases, workdir, tag, use_model=True, stop_at_first=False):
                 for k in ("reads", "reads_ascii"):
                     if mr[k] is not None and ir[k] is not None:
                         mr[k] = {kk: mr[k][kk] for kk in ir[k]}
-            if o["renders"] != renders:
+            if o["renders"] != [{k: v for k, v in r_.items() if k != "kept"} for r_ in renders]:     # "kept" is an oracle-only observation
                 # name the first differing component
                 msg = "?"
                 for mr, ir in zip(o["renders"], renders):
